@@ -53,8 +53,9 @@ def graph(task):
         ref[g] = state_of(ws.snapshot(root))
     ws.make_ws(root, files, patches, lines)
     pristine = ws.snapshot(root)
-    # (a count beyond the number of patches, up to the largest number there is, means "all the remaining ones")
-    invs = [([], None)] + [([str(m)], m) for m in range(n + 1)] + [([nm], ('name', i)) for i, nm in enumerate(names)] + [(['-a'], 'all'), (['18446744073709551615'], 'all'), (['4294967296'], 'all')]
+    # (a count beyond the number of patches, up to the largest number there is, means "all the remaining ones"; a name that is
+    # not valid UTF-8 cannot be given as an argument - the option parser insists on UTF-8 - and is reached by counts only)
+    invs = [([], None)] + [([str(m)], m) for m in range(n + 1)] + [([nm], ('name', i)) for i, nm in enumerate(names) if nm.isprintable()] + [(['-a'], 'all'), (['18446744073709551615'], 'all'), (['4294967296'], 'all')]
     seen = {(state_of(pristine), 0): (pristine, [])}
     queue = [(state_of(pristine), 0)]
     states, transitions = 1, 0
